@@ -20,7 +20,7 @@ import (
 	"verif/vsess"
 )
 
-var peerModes = []string{"peer-closes-first", "peer-closes-after-us", "peer-stream-error", "silent-until-close-deadline", "peer-closes-after-stanza-for-failing-handler", "close-deadline-extended-then-peer-closes-after-us", "close-deadline-set-while-serving-then-stanza-and-peer-closes"}
+var peerModes = []string{"peer-closes-first", "peer-closes-after-us", "peer-stream-error", "peer-stream-error-with-long-text", "silent-until-close-deadline", "peer-closes-after-stanza-for-failing-handler", "close-deadline-extended-then-peer-closes-after-us", "close-deadline-set-while-serving-then-stanza-and-peer-closes"}
 var transmitOps = []string{"Send", "SendElement", "Encode", "EncodeElement", "SendIQ-result", "SendMessage-error", "SendPresence-error", "TokenWriter", "EncodeIQ-result", "TokenWriter-opened-early"}
 
 type msgStruct struct {
@@ -84,9 +84,10 @@ func body(c *nd.Ctx) nd.Result {
 	peer := peerModes[c.Choose(len(peerModes), "peer")]
 	closers := []int{1, 2, 0}[c.Choose(3, "closers")]
 	op := c.Choose(len(transmitOps), "transmit-op")
-	handlerMode := c.Choose(3, "handler") // 0 nothing, 1 replies, 2 returns error
+	handlerMode := c.Choose(4, "handler") // 0 nothing, 1 replies, 2 returns error, 3 returns a stream error whose text is longer than the encoder's buffer
+	longText := strings.Repeat("0123456789", 500)
 	tagWriteFails := c.Choose(2, "first-write-of-the-closing-tag-fails") == 1
-	if tagWriteFails && peer != "peer-closes-first" && peer != "peer-stream-error" {
+	if tagWriteFails && peer != "peer-closes-first" && peer != "peer-stream-error" && peer != "peer-stream-error-with-long-text" {
 		// with the closing tag refused by the connection only peers that end the
 		// stream by themselves let Serve return
 		return nd.Result{Skip: true}
@@ -97,7 +98,7 @@ func body(c *nd.Ctx) nd.Result {
 		switch {
 		case peer == "peer-closes-after-us" || peer == "close-deadline-extended-then-peer-closes-after-us" || peer == "close-deadline-set-while-serving-then-stanza-and-peer-closes":
 			return nd.Result{Skip: true}
-		case peer == "peer-closes-after-stanza-for-failing-handler" && handlerMode != 2:
+		case peer == "peer-closes-after-stanza-for-failing-handler" && handlerMode < 2:
 			return nd.Result{Skip: true}
 		}
 	}
@@ -119,6 +120,9 @@ func body(c *nd.Ctx) nd.Result {
 	tagWrites := 0
 	handlerCalls := 0
 	handlerErr := errors.New("handler failed")
+	if handlerMode == 3 {
+		handlerErr = stream.Error{Err: "policy-violation", Text: []struct{ Lang, Value string }{{Lang: "en", Value: longText}}}
+	}
 	out := vs.Run(c, vs.Options{Horizon: 20000}, func() {
 		env, setupErr = vsess.New(ns, 0)
 		if setupErr != nil {
@@ -130,6 +134,8 @@ func body(c *nd.Ctx) nd.Result {
 			env.PeerWrite(`<message id='in1'><body>hi</body></message></stream:stream>`)
 		case "peer-stream-error":
 			env.PeerWrite(`<stream:error><host-gone xmlns='urn:ietf:params:xml:ns:xmpp-streams'/></stream:error></stream:stream>`)
+		case "peer-stream-error-with-long-text":
+			env.PeerWrite(`<stream:error><host-gone xmlns='urn:ietf:params:xml:ns:xmpp-streams'/><text xmlns='urn:ietf:params:xml:ns:xmpp-streams' xml:lang='en'>` + longText + `</text></stream:error></stream:stream>`)
 		case "peer-closes-after-stanza-for-failing-handler":
 			env.PeerWrite(`<message id='in1'><body>hi</body></message>`)
 		}
@@ -181,7 +187,7 @@ func body(c *nd.Ctx) nd.Result {
 					return nil
 				}
 				t.EncodeToken(st.End())
-			case 2:
+			case 2, 3:
 				return handlerErr
 			}
 			return nil
@@ -319,7 +325,7 @@ func body(c *nd.Ctx) nd.Result {
 		if deadlineErr != nil {
 			return fail("deadline:set-fails", "SetCloseDeadline returned %v", deadlineErr)
 		}
-		if handlerMode != 2 || (peer != "peer-closes-first" && peer != "close-deadline-set-while-serving-then-stanza-and-peer-closes") {
+		if handlerMode < 2 || (peer != "peer-closes-first" && peer != "close-deadline-set-while-serving-then-stanza-and-peer-closes") {
 			// a handler whose reply is refused because the application closed the
 			// output in the meantime legitimately ends Serve with that error
 			if env.ServeErr != nil && !(handlerMode == 1 && errors.Is(env.ServeErr, xmpp.ErrOutputStreamClosed)) {
@@ -328,7 +334,7 @@ func body(c *nd.Ctx) nd.Result {
 		} else if !errors.Is(env.ServeErr, handlerErr) {
 			return fail("serve:handler-error-not-returned", "Serve returned %v", env.ServeErr)
 		}
-	case "peer-stream-error":
+	case "peer-stream-error", "peer-stream-error-with-long-text":
 		var se stream.Error
 		if !errors.As(env.ServeErr, &se) || se.Err != "host-gone" {
 			return fail("serve:stream-error-not-returned", "Serve returned %v", env.ServeErr)
@@ -338,7 +344,7 @@ func body(c *nd.Ctx) nd.Result {
 			return fail("serve:no-error-on-close-deadline", "Serve returned %v, SetCloseDeadline %v", env.ServeErr, deadlineErr)
 		}
 	case "peer-closes-after-stanza-for-failing-handler":
-		if handlerMode == 2 && !errors.Is(env.ServeErr, handlerErr) {
+		if handlerMode >= 2 && !errors.Is(env.ServeErr, handlerErr) {
 			return fail("serve:handler-error-not-returned", "Serve returned %v", env.ServeErr)
 		}
 	}
